@@ -184,6 +184,95 @@ class Fn:
                 yield b, i, s
 
 
+def _place_uses(p, out):
+    out.add(p["l"])
+    for e in p["p"]:
+        if isinstance(e, dict) and "i" in e:
+            out.add(e["i"])
+
+
+def _op_uses(op, out):
+    for k in ("cp", "mv"):
+        if k in op:
+            _place_uses(op[k], out)
+
+
+def rvalue_uses(rv, out):
+    for key in ("op", "a", "b"):
+        if key in rv and isinstance(rv[key], dict):
+            _op_uses(rv[key], out)
+    if "place" in rv:
+        _place_uses(rv["place"], out)
+    for o in rv.get("ops", []):
+        _op_uses(o, out)
+
+
+def liveness(fn):
+    """live-in sets of locals per block (backward may-analysis on the normal CFG)."""
+    n = len(fn.blocks)
+    use = [set() for _ in range(n)]
+    kill = [set() for _ in range(n)]
+    for b in fn.reachable():
+        blk = fn.blocks[b]
+        u, d = set(), set()
+        def use_(s_):
+            for x in s_:
+                if x not in d:
+                    u.add(x)
+        for s in blk["stmts"]:
+            if s["k"] == "assign":
+                tmp = set()
+                rvalue_uses(s["rv"], tmp)
+                pl = s["place"]
+                if pl["p"]:
+                    _place_uses(pl, tmp)
+                use_(tmp)
+                if not pl["p"]:
+                    d.add(pl["l"])
+            elif s["k"] == "setdiscr":
+                tmp = set()
+                _place_uses(s["place"], tmp)
+                use_(tmp)
+        t = blk["term"]
+        tmp = set()
+        if t["k"] == "call":
+            for a in t["args"]:
+                _op_uses(a, tmp)
+            if "fnop" in t:
+                _op_uses(t["fnop"], tmp)
+            if t["dest"]["p"]:
+                _place_uses(t["dest"], tmp)
+            use_(tmp)
+            if not t["dest"]["p"]:
+                d.add(t["dest"]["l"])
+        elif t["k"] == "switch":
+            _op_uses(t["op"], tmp)
+            use_(tmp)
+        elif t["k"] == "assert":
+            _op_uses(t["cond"], tmp)
+            use_(tmp)
+        elif t["k"] == "drop":
+            _place_uses(t["place"], tmp)
+            use_(tmp)
+        elif t["k"] == "return":
+            use_({0})
+        use[b], kill[b] = u, d
+    live_in = [set() for _ in range(n)]
+    changed = True
+    order = sorted(fn.reachable(), reverse=True)
+    while changed:
+        changed = False
+        for b in order:
+            out = set()
+            for s in fn.succ(b):
+                out |= live_in[s]
+            new = use[b] | (out - kill[b])
+            if new != live_in[b]:
+                live_in[b] = new
+                changed = True
+    return live_in
+
+
 def callee(t):
     """Best name for a call terminator's target: resolved instance, else declared item."""
     f = t.get("fn")
